@@ -5,8 +5,28 @@ SUFFIX = {"unsigned long": "ul", "long": "l", "int": "i", "unsigned int": "u", "
           "size_t": "ul", "uint64_t": "ul", "int64_t": "l", "uint32_t": "u", "int32_t": "i"}
 
 
+NUMLIM = {("max", "long"): "INT64_MAX", ("min", "long"): "INT64_MIN", ("lowest", "long"): "INT64_MIN",
+          ("max", "double"): "DBL_MAX", ("min", "double"): "DBL_MIN", ("lowest", "double"): "(-DBL_MAX)",
+          ("max", "unsigned long"): "UINT64_MAX", ("min", "unsigned long"): "0UL", ("max", "int"): "INT32_MAX", ("min", "int"): "INT32_MIN",
+          ("max", "unsigned int"): "UINT32_MAX", ("min", "unsigned int"): "0U",
+          ("infinity", "double"): "((double)INFINITY)", ("quiet_NaN", "double"): "((double)NAN)", ("epsilon", "double"): "DBL_EPSILON"}
+
+
+def _numlim(which):
+    def h(em, node, recv, args):
+        t = em.ctype(node["type"])
+        v = NUMLIM.get((which, t.base))
+        if v is None:
+            raise ExtractionError("std::numeric_limits<%s>::%s not mapped" % (t.base, which))
+        em.report["std::numeric_limits constants mapped to <stdint.h>/<float.h>"] += 1
+        return v
+    return h
+
+
 def _minmax(which):
     def h(em, node, recv, args):
+        if not args:
+            return _numlim(which)(em, node, recv, args)
         t = em.ctype(node["type"])
         if t.is_ref:
             t = t.pointee()
@@ -137,6 +157,13 @@ def _str_ctor(em, node, args):
     raise ExtractionError("std::string construction with %d args not supported here" % len(args))
 
 
+def _atomic_type(em, base, targs, name):
+    if base == "std::atomic" and targs:
+        em.report["std::atomic<T> fields laid out as plain T (atomicity dropped; sequential semantics)"] += 1
+        return em._ctype(targs[0])
+    return None
+
+
 def default_config():
     cfg = Config()
     for f in ("memset", "memcpy", "memcmp", "strlen", "memchr", "memmove", "strcmp", "strncmp", "abort",
@@ -146,6 +173,8 @@ def default_config():
         cfg.ext[f] = "xc_" + f
     cfg.ext["min"] = _minmax("min")
     cfg.ext["max"] = _minmax("max")
+    for w in ("lowest", "infinity", "quiet_NaN", "epsilon"):
+        cfg.ext[w] = _numlim(w)
     cfg.ext["all_of"] = _all_any_of("all_of")
     cfg.ext["any_of"] = _all_any_of("any_of")
     cfg.ext["equal"] = _std_equal
@@ -156,6 +185,8 @@ def default_config():
     cfg.ext["move"] = lambda em, node, recv, args: em.expr(args[0])
     cfg.ext["forward"] = lambda em, node, recv, args: em.expr(args[0])
     cfg.type_handlers.append(_std_array)
+    cfg.type_handlers.append(_atomic_type)
+    cfg.ctor_ext["std::atomic"] = lambda em, node, args: (em.expr(args[0]) if args else "0")
     for n in ("std::string", "std::basic_string<char>", "std::basic_string", "std::__cxx11::basic_string"):
         cfg.type_map[n] = "xc_str"
     for n in ("std::basic_string", "std::__cxx11::basic_string"):
